@@ -76,7 +76,7 @@ def judge(case, res, single):
     fails = []
     if res['outcome'] != 'ok':
         return fails
-    main = case['opts'].get('lang') or ''
+    main = case.get('main_lang', case['opts'].get('lang') or '')
     want = word_langs(case['ast'], main)
     where = {w['w']: w['start'] for w in case['words'] if w['role'] in ('copy', 'detached')}
     seen = {}
@@ -149,12 +149,32 @@ def run(ctx):
         r = gen.R(); gen.render(ast, r)
         cases.append({'src': r.src(), 'opts': {'lang': rng.choice(['en-GB', 'de-DE', 'ru-RU']), 'pack': '*'}, 'multi': True,
                       'thresh': rng.randint(0, 5), 'kind': 'sem', 'ast': ast, 'words': r.words, 'spans': r.spans, 'callspans': r.callspans})
+    # language options given to \\documentclass and to \\usepackage{babel}: the last language of class options + package options
+    # is the language of the text (the initial language if neither names one)
+    CLS = ['ngerman', 'english', 'russian', 'french', 'a4paper', '12pt', 'german', 'american']
+    for _ in range(max(60, n // 10)):
+        g = gen.G(rng, {'only': ONLY, 'heading_footnotes': False, 'max_depth': 2})
+        co = rng.sample(CLS, rng.randint(0, 3)); po = rng.sample(CLS, rng.randint(0, 3))
+        pre = ''
+        if rng.random() < 0.85:
+            pre += '\\documentclass' + ('[' + ','.join(co) + ']' if co else '') + '{' + rng.choice(['article', 'scrartcl', 'book']) + '}\n'
+        else:
+            co = []
+        pre += '\\usepackage' + ('[' + ','.join(po) + ']' if po else '') + '{babel}\n'
+        opts = {'lang': rng.choice(['en-GB', 'de-DE', 'ru-RU']), 'pack': rng.choice(['*', '', 'amsmath'])}
+        lm = lang_map()
+        named = [o for o in co + po if o in lm]
+        main = lm[named[-1]] if named else opts['lang']
+        ast = {'t': 'seq', 'items': [{'t': 'rawword', 'w': pre}] + g.document(rng.randint(2, 5))['items']}
+        r = gen.R(); gen.render(ast, r)
+        cases.append({'src': r.src(), 'opts': opts, 'multi': True, 'main_lang': main,
+                      'thresh': rng.randint(0, 5), 'kind': 'sem', 'ast': ast, 'words': r.words, 'spans': r.spans, 'callspans': r.callspans})
     ctx.stats['_rule'] = ('documents of words, groups, unknown macros, footnotes mixed with \\selectlanguage, \\foreignlanguage and otherlanguage '
                           'environments in any nesting; thresholds 0..5; main languages en-GB/de-DE/ru-RU/fr/en-US/none; reference language per word '
                           'from a push/pop/replace-top reading of the AST; non-trivial = at least two languages expected')
     results = ctx.pmap(run_pair, cases)
     for c, (r, single) in zip(cases, results):
-        main = c['opts'].get('lang') or ''
+        main = c.get('main_lang', c['opts'].get('lang') or '')
         want = word_langs(c['ast'], main)
         ctx.case(c['src'], nontrivial=len(set(want.values())) >= 2)
         ctx.count('outcome_' + r['outcome']); ctx.count('languages', len(set(want.values())))
